@@ -56,8 +56,32 @@ def rule_freshname(ctx, prop: str) -> RuleResult:
         f = ix.func(file, qn)
         res.analysed.append(f"{file}:{qn}")
         loops = fresh_loops(f)
-        if not loops:
-            raise AnalysisError(f"anchor vanished: no `while <cand> in <registry>` fresh-name search in {qn}")
+        # every candidate string built here must be re-tested against the registry before it is
+        # issued: the build sits inside a `while <cand> in <registry>` loop
+        in_loop = {id(s) for loop, _, _ in loops for b in loop.body for s in ast.walk(b)}
+        builds = [
+            n
+            for n in f.body_nodes()
+            if isinstance(n, ast.Assign) and len(n.targets) == 1 and isinstance(n.targets[0], ast.Name) and _is_strbuild(n.value)
+        ]
+        if not loops and not builds:
+            raise AnalysisError(f"anchor vanished: no fresh-name search in {qn}")
+        for b in builds:
+            res.instances += 1
+            ok = id(b) in in_loop
+            res.ob(ok)
+            if not ok:
+                res.add(
+                    Finding(
+                        "FRESHNAME",
+                        file,
+                        b.lineno,
+                        qn,
+                        f"{b.targets[0].id} = <built name>",
+                        f"the candidate built here (`{ast.unparse(b)}`) is issued without being re-tested against the names already in "
+                        f"use: a symbol whose own name equals the candidate (t_1, t, t) shares its printed identifier",
+                    )
+                )
         for loop, cand, reg in loops:
             res.instances += 1
             res.nontrivial += 1
